@@ -748,7 +748,7 @@ theorem sim {g : Grammar} {x : Sem.Env} (h : Hyp g x) (c : Sem.Ctx) (hc : c.eol 
         | true => simp [Repr] at hr
         | false =>
           obtain ⟨nd, kid, hnd, hk, hs, hroot, hsep, heol, hkids, hry⟩ := hr
-          simp only [docExpr, Bool.and_eq_true, Bool.or_eq_true, decide_eq_true_eq, Bool.not_eq_true'] at hd
+          simp only [docExpr, Bool.and_eq_true, Bool.not_eq_true'] at hd
           cases op with
           | opt =>
             have h1 := ihn y kid s m hry hd.2 hi
@@ -791,7 +791,7 @@ theorem sim {g : Grammar} {x : Sem.Env} (h : Hyp g x) (c : Sem.Ctx) (hc : c.eol 
                   | list b =>
                     rw [finish_plain id nd _ hs hroot (by simp)]; simpa [leaves, leavesList] using l1
           | star =>
-            have hf : falsy nf ff y = false := by rcases hd.1 with h' | h'; exact absurd h' (by decide); exact h'
+            have hf : falsy nf ff y = false := hd.1
             have hrep := rep_sim ihn y kid hry hd.2 hf n s [] [] m false false true false s.pos hi (by simp)
               (by simp [leavesList]) (Nat.le_refl _) (by simp) (by simp)
             simp only [repKind] at hk
@@ -800,7 +800,7 @@ theorem sim {g : Grammar} {x : Sem.Env} (h : Hyp g x) (c : Sem.Ctx) (hc : c.eol 
             have := hrep.postS id nd s.pos sup hs hroot
             simpa using this
           | plus =>
-            have hf : falsy nf ff y = false := by rcases hd.1 with h' | h'; exact absurd h' (by decide); exact h'
+            have hf : falsy nf ff y = false := hd.1
             simp only [repKind] at hk
             simp only [parse, nodeParse, hnd, hk, h.memo, wrap_post, bodyNode, hkids, hsep,
               withEol_false _ _ _ heol, pExpr_plus, falsy, hf, Bool.or_false]
